@@ -109,9 +109,9 @@ fn pair(file: &str, item: &str, env: &Env, e: &syn::Expr) -> R<(String, Val)> {
     let e = named.as_ref().unwrap_or(e);
     if let syn::Expr::Tuple(t) = strip(e) {
         if t.elems.len() == 2 {
-            if let Some(name) = str_lit(&t.elems[0]) {
+            if let Some(name) = str_lit(&t.elems[0]).or_else(|| crate::authurl::const_str(&env.resolve(&t.elems[0]))) {
                 let v = &t.elems[1];
-                let val = match str_lit(v) {
+                let val = match str_lit(v).or_else(|| crate::authurl::const_str(&env.resolve(v))) {
                     Some(l) => Val::Lit(l),
                     None => Val::Src(canon(text_view(&env.resolve(v)))),
                 };
@@ -205,6 +205,15 @@ fn push_stmt(file: &str, item: &str, env: &Env, acc: &str, st: &syn::Stmt) -> R<
     if let Some(t) = push_call(acc, e) {
         let (name, value) = pair(file, item, env, t)?;
         return Ok(Some(vec![Push { name, value, cond: None }]));
+    }
+    // `P.extend(<iterator of pairs>)`: the pairs it yields, in order (an `Option` yields its pair iff it is `Some`)
+    if let syn::Expr::MethodCall(m) = strip(e) {
+        if m.method == "extend" && m.args.len() == 1 && ident_of(&m.receiver).as_deref() == Some(acc) {
+            let r = env.resolve(&m.args[0]);
+            if let Some(ps) = iter_pushes(file, item, env, &r)? {
+                return Ok(Some(ps));
+            }
+        }
     }
     if let syn::Expr::If(i) = strip(e) {
         if let syn::Expr::Let(l) = strip(&i.cond) {
@@ -1026,6 +1035,40 @@ fn endpoint(f: &syn::ItemFn, lib: &syn::File, src: &syn::File) -> R<(Vec<String>
                         }
                     }
                 }
+                // the same value written `<param>.filter(|v| !v.is_empty()).map(|v| v.iter().map(|s| ..).collect().join("sep"))`
+                if let syn::Expr::MethodCall(m) = strip(init) {
+                    if m.method == "map" && m.args.len() == 1 {
+                        if let syn::Expr::MethodCall(fl) = strip(&m.receiver) {
+                            if fl.method == "filter" && fl.args.len() == 1 {
+                                if let (Some(src), Some((fv, fbody)), Some((mv, mbody))) = (is_param(&fl.receiver), closure1(&fl.args[0]), closure1(&m.args[0])) {
+                                    let shape = "`<param>.filter(|v| !v.is_empty()).map(|v| v.iter().map(|s| ..).collect().join(\"sep\"))`";
+                                    let non_empty = match strip(fbody) {
+                                        syn::Expr::Unary(u) if matches!(u.op, syn::UnOp::Not(_)) => match strip(&u.expr) {
+                                            syn::Expr::MethodCall(q) => q.method == "is_empty" && q.args.is_empty() && ident_of(strip_ref(&q.receiver)).as_deref() == Some(fv.as_str()),
+                                            _ => false,
+                                        },
+                                        _ => false,
+                                    };
+                                    let (root, calls) = chain(block_expr(mbody));
+                                    let names: Vec<String> = calls.iter().map(|c| c.method.to_string()).collect();
+                                    if !non_empty || ident_of(root).as_deref() != Some(mv.as_str()) || names != ["iter", "map", "collect", "join"] {
+                                        return fail(EP, item, shape);
+                                    }
+                                    let elem = match closure1(&calls[1].args[0]) {
+                                        Some((b, body)) => canon(strip_ref(&Env::default().with_rename(&b, "it").resolve(body))),
+                                        None => return fail(EP, item, shape),
+                                    };
+                                    let sep = match calls[3].args.first().and_then(str_lit) {
+                                        Some(s) if calls[3].args.len() == 1 => s,
+                                        _ => return fail(EP, item, "`.join(\"<separator literal>\")`"),
+                                    };
+                                    out.push(Stmt::ScopeValue { name, source: src, non_empty_only: true, elem, sep });
+                                    continue;
+                                }
+                            }
+                        }
+                    }
+                }
                 env.bind(&name, init);
             }
             syn::Stmt::Expr(e, _) => {
@@ -1322,6 +1365,7 @@ pub fn extract(srcs: &Sources) -> R<String> {
     // every inherent `fn prepare_request`, wherever it lives (Props/GenRequest.lean pins owners and files)
     let mut preps = Vec::new();
     for (file, f) in &srcs.files {
+        crate::authurl::collect_str_consts(f);
         for (owner, func) in inherent_fns(f, "prepare_request") {
             preps.push(prepare(file, f, &owner, func, &ep_params)?);
         }
